@@ -171,7 +171,19 @@ FormFns == {"gcirc", "radec_to_munu", "munu_to_radec", "stripe_to_eta", "stripe_
 (* scalars) against the same call with the same values as float64: disc = largest difference *)
 (* of the results (ppb for gcirc, nano-degrees otherwise; 0 = identical)                      *)
 FormTol(r) == IF r.fn = "gcirc" THEN 1 ELSE PosTolNdeg(r.polar)
-FormIndependent(r) == r.fn \in FormFns /\ r.form \in IntForms /\ ~r.raised /\ ~r.nan /\ r.disc <= FormTol(r)
+(* The numeric type is chosen PER ARGUMENT: `mix` names the arguments that take the integer  *)
+(* form, every other argument is float64.  gcirc: all four; the RAs only; the Decs only; the  *)
+(* first / second point only; one point as integer scalars against the other as float arrays  *)
+(* (broadcast); Python-int RAs / Decs against float arrays.  cap_distance: x, cm, points.      *)
+(* The transforms: the longitude or the latitude array of the coordinate object.               *)
+GcircMixes == {"all", "ra", "dec", "p1", "p2", "scalar-p1", "scalar-p2", "pyint-ra", "pyint-dec"}
+MixesOf(fn) == CASE fn = "gcirc" -> GcircMixes
+                 [] fn = "cap_distance" -> {"all", "x", "cm", "points"}
+                 [] fn \in {"radec_to_munu", "munu_to_radec"} -> {"all", "lon", "lat"}
+                 [] OTHER -> {"all"}
+MixAdmitsForm(m, f) == IF m \in {"pyint-ra", "pyint-dec"} THEN f = "pyint" ELSE (f = "pyint" => m = "all")
+FormIndependent(r) == /\ r.fn \in FormFns /\ r.form \in IntForms /\ r.mix \in MixesOf(r.fn) /\ MixAdmitsForm(r.mix, r.form)
+                      /\ ~r.raised /\ ~r.nan /\ r.disc <= FormTol(r)
 
 (* Named deviation D-C18-1: the half-differences are formed AFTER each coordinate was      *)
 (* converted to radians, so they carry the rounding error of the radian values (~2e-16     *)
@@ -190,7 +202,7 @@ ExpectedDist(c) ==
   LET d == Dist(c.p, c.q, c.units) IN
   [d |-> d, scale |-> OutScale(c.units), zero |-> (c.p = c.q),
    demand |-> DemandVector(c.p, c.q, c.units, c.k), tolppb |-> RelTolPpb, slackppb |-> RangeSlackPpb,
-   dev1 |-> Dev_SubtractsRadians(d, c.k), forms |-> DistForms(c)]
+   dev1 |-> Dev_SubtractsRadians(d, c.k), forms |-> DistForms(c), mixes |-> IF DistForms(c) = {} THEN {} ELSE GcircMixes]
 
 (* spec-level laws of the exact families *)
 DistCaseOK(c) == c.k >= KMin /\ PointOK(c.p, c.units) /\ PointOK(c.q, c.units) /\ Applicable(c.p, c.q, c.units) # {}
